@@ -859,6 +859,33 @@ func (w *walker) stmt(s ast.Stmt, rest []ast.Stmt) (nodes []Node, stop bool) {
 		return out, false
 	case *ast.TypeSwitchStmt:
 		if w.usesStream(v) {
+			// the stream is touched only by the operand (`switch mv := ReadValue(in).(type)`), the arms
+			// sort out what was read: the operand's events, read once, whatever the arm
+			if v.Init == nil && !w.usesStream(v.Body) {
+				var ta *ast.TypeAssertExpr
+				var bound *ast.Ident
+				switch a := v.Assign.(type) {
+				case *ast.ExprStmt:
+					ta, _ = ast.Unparen(a.X).(*ast.TypeAssertExpr)
+				case *ast.AssignStmt:
+					if len(a.Rhs) == 1 && len(a.Lhs) == 1 {
+						ta, _ = ast.Unparen(a.Rhs[0]).(*ast.TypeAssertExpr)
+						bound, _ = a.Lhs[0].(*ast.Ident)
+					}
+				}
+				if ta != nil {
+					// a field the arms store the bound value into names what the read is for
+					var st ast.Stmt = &ast.ExprStmt{X: ta.X}
+					if bound != nil {
+						if tgt := w.typeSwitchTarget(v, bound); tgt != nil {
+							as := &ast.AssignStmt{Lhs: []ast.Expr{tgt}, TokPos: v.Pos(), Tok: token.ASSIGN, Rhs: []ast.Expr{ta.X}}
+							st = as
+						}
+					}
+					ns, _ := w.stmt(st, nil)
+					return ns, false
+				}
+			}
 			return []Node{&Unknown{Pos: v.Pos(), Reason: "type switch touching the stream"}}, false
 		}
 		return nil, false
@@ -3047,4 +3074,34 @@ func (w *walker) withHeader(g []Node, fi *core.FuncInfo) []Node {
 		return append([]Node{&Unknown{Pos: fi.Decl.Pos(), Reason: "assembled buffer: " + w.hdrBroken}}, g...)
 	}
 	return append(head, g...)
+}
+
+// typeSwitchTarget: the one field (selector expression) that an arm of the type switch assigns the
+// bound value to (`case *T: this.Attr = mv`), if there is exactly one such target.
+func (w *walker) typeSwitchTarget(v *ast.TypeSwitchStmt, bound *ast.Ident) ast.Expr {
+	var tgt ast.Expr
+	n := 0
+	ast.Inspect(v.Body, func(m ast.Node) bool {
+		as, ok := m.(*ast.AssignStmt)
+		if !ok || len(as.Lhs) != 1 || len(as.Rhs) != 1 || as.Tok != token.ASSIGN {
+			return true
+		}
+		id, ok := ast.Unparen(as.Rhs[0]).(*ast.Ident)
+		if !ok || id.Name != bound.Name {
+			return true
+		}
+		// the symbol of a type switch has one implicit object per clause
+		if _, isVar := w.c.Info.Uses[id].(*types.Var); !isVar {
+			return true
+		}
+		if _, isSel := ast.Unparen(as.Lhs[0]).(*ast.SelectorExpr); isSel {
+			tgt = as.Lhs[0]
+			n++
+		}
+		return true
+	})
+	if n == 1 {
+		return tgt
+	}
+	return nil
 }
